@@ -6,20 +6,23 @@ import io, itertools, json, logging, types
 from fractions import Fraction
 
 CLAIM = {
- 'text': ('Lean 4 theorems about a transcription of Type01Plan.FrameSetPlan / RLEType01 / LogPass / FrameSet / FileIndex: '
-          'events_cover + events_inside_record (for every frame plan, channel list and slice the read events of genEvents '
-          'read exactly the indirect word and the selected channels of the selected frames, in order, and read+skip stays '
-          'inside the record), rle_lookup + index_data_record (frame number -> record position and offset, every record '
-          'appended with its whole number of frames), index_lists_all (every dispatchable record listed at its position '
-          'with type, kind and table name, in file order), setFrameSet_history_independent + setFrameSet_after_any_load, '
-          'extrapolate_rule_first/later, setFrameSet_values_allchannels_single_partial (direct X, all channels, one data '
-          'record: every slice gives exactly the rows of the selected frames), and kernel-evaluated witnesses (setFrameSet_values_witness, implied_x_witness_step1, '
-          'implied_x_f7_witness = the negation of the implied-X clause on the current code). The end-to-end statements '
-          '(setFrameSet_values for several records / channel subsets, implied X for step 1) are not proved in general; they are covered by the correspondence of '
-          'the model with the code on generated LIS files (index entries, loaded words, implied X vector, file operation '
-          'trace, genEvents tuples) and by the property oracle evaluated on the implementation alone against the '
-          'generator\'s ground truth. Proof + correspondence is the right level: the property quantifies over unbounded '
-          'selections x record boundaries x channel shapes.'),
+ 'text': ('Lean 4 theorems about a transcription of Type01Plan.FrameSetPlan / RLEType01 / LogPass / FrameSet / FileIndex. '
+          'General (unbounded) results: events_cover + events_inside_record (genEvents reads exactly the indirect word and '
+          'the selected channels of the selected frames of a record, in order, inside the record); rle_lookup + '
+          'index_data_record (frame -> record position and offset; records appended with whole frame counts); '
+          'index_lists_all; setFrameSet_values_allchannels_partial (direct X, channel list None, ANY number of data '
+          'records at increasing positions, every slice/step: the load succeeds and row i is exactly the words of all '
+          'channels of frame start+i*step, via the grouping/sorted-order lemma for _retFrameSetMap and induction over the '
+          'map entries); reads_inside_selected_records (any channels, direct or indirect X: every seek/read of a '
+          'successful load lies inside a record that holds a requested frame); setFrameSet_history_independent + '
+          'setFrameSet_after_any_load; implied_x_events_partial + extrapolate_rule_first/later (the EXTRAPOLATE events of '
+          'a record for every channel list, and the rule each one applies: this is the F7 wrong-value rule); '
+          'kernel-evaluated witnesses incl. implied_x_f7_witness (negation of the implied-X clause on the current code). '
+          'Not proved in general: setFrameSet_values for proper channel subsets, and the composition of the implied-X '
+          'rules over renumbering/all records (implied_x_partial / implied_x_wrong_iff); these are covered by the '
+          'correspondence of the model with the code on generated LIS files (index entries, loaded words, implied X '
+          'vector, file operation trace, genEvents tuples) and by the property oracle evaluated on the implementation '
+          'alone against the generator\'s ground truth.'),
  'note': ('Trusted: Lean kernel; hand-written model as far as compared on the run; physical record layer (C05) and '
           'numeric decoding of representation codes (C07) are used, not verified, here: channel values are compared as '
           'raw words decoded on both sides by the same RepCode.readBytes. X values are integers (float64 exact).'),
